@@ -870,3 +870,42 @@ Proof.
   - unfold m_chown. destruct (lookup s (normalize_path p)); [apply MemFsWF.lookup_upd | reflexivity].
   - unfold m_chtimes. destruct (lookup s (normalize_path p)); [apply MemFsWF.lookup_upd | reflexivity].
 Qed.
+
+(* the exact path map after Remove / RemoveAll *)
+Lemma remove_lookup s p k' :
+  WF s -> wf_name p = true -> normalize_path p <> s_slash ->
+  lookup (fst (m_step s (Remove p))) k' = olookup s (rho_del (normalize_path p) k').
+Proof.
+  intros W Hw Hr. set (key := normalize_path p) in *. assert (Hc : canon key) by (apply canon_normalize; exact Hw).
+  rewrite m_step_bump. cbn [fst m_step_raw]. unfold m_remove. fold key. change (lookup (bump ?x) k') with (lookup x k').
+  unfold rho_del. destruct (lookup s key) as [f|] eqn:Hl.
+  - pose proof (WF_fresh s key f W Hl) as Hname.
+    destruct (GWF_unregister kempty kempty kempty s key f W Hl Hname Hr) as (q & qn & Hq & Hqn & Hqd & Hun & _); [intros [] | intros [] |].
+    rewrite Hun. cbn [fst]. change (set_data ?s1 (alist_del key (mdata ?s1))) with (del_key s1 key).
+    rewrite lookup_del_key. destruct (beqb key k'); [reflexivity|]. cbn [olookup]. apply MemFsWF.lookup_upd.
+  - cbn [fst]. destruct (beqb key k') eqn:E; [|reflexivity]. apply beqb_eq in E. subst k'. exact Hl.
+Qed.
+
+Lemma removeall_lookup s p k' :
+  WF s -> wf_name p = true -> normalize_path p <> s_slash ->
+  lookup (fst (m_step s (RemoveAll p))) k' = olookup s (rho_prune (normalize_path p) k').
+Proof.
+  intros W Hw Hr. set (key := normalize_path p) in *. assert (Hc : canon key) by (apply canon_normalize; exact Hw).
+  rewrite m_step_bump. cbn [fst m_step_raw]. unfold m_removeall. fold key. change (lookup (bump ?x) k') with (lookup x k').
+  unfold rho_prune. destruct (lookup s key) as [f|] eqn:Hl.
+  - pose proof (WF_fresh s key f W Hl) as Hname.
+    destruct (GWF_unregister kempty kempty kempty s key f W Hl Hname Hr) as (q & qn & Hq & Hqn & Hqd & Hun & _); [intros [] | intros [] |].
+    rewrite Hun. cbn [fst]. change (set_data ?s1 (filter (fun kv => negb (under key (fst kv))) (mdata ?s1))) with (prune s1 key).
+    rewrite lookup_prune. destruct (under key k'); [reflexivity|]. cbn [olookup]. apply MemFsWF.lookup_upd.
+  - assert (Hun : unregister s key = Some (s, false)) by (unfold unregister; now rewrite (lockfree_open_canon s key Hc), Hl).
+    rewrite Hun. cbn [fst]. change (set_data s (filter (fun kv => negb (under key (fst kv))) (mdata s))) with (prune s key).
+    rewrite lookup_prune. destruct (under key k'); reflexivity.
+Qed.
+
+(* a binding that comes from a renaming of the old path map is not fresh *)
+Lemma no_fresh_of_olookup rho s s' : bound_ok s -> (forall k', lookup s' k' = olookup s (rho k')) ->
+  forall k' r, lookup s' k' = Some r -> fresh_in s r -> False.
+Proof.
+  intros Hb Hl k' r Hk Hf. rewrite Hl in Hk. destruct (rho k') as [k|]; [|discriminate]. cbn [olookup] in Hk.
+  destruct (Hb k r Hk) as (x & Hx). exact (fresh_not_old s r x Hf Hx).
+Qed.
